@@ -734,3 +734,27 @@ def cell_tree(cell, g):
     else:
         tree = dict(t=comp, a=leaf, D=d)
     return tree, d_in
+
+
+# ------------------------------------------------------------------------------------------------
+# part "dims" of Kernels.tla: stacks of one-dimensional kernels / base covariances along a NAMED dimension
+SLICED = ("ls", "period", "var", "means", "scales")            # parameters with one entry per input dimension (under ARD)
+
+
+def dim_terms(fam, P, x1, x2):
+    """[k'(x1[..., t], x2[..., t]) : t] - the documented one-dimensional kernels of family `fam`, dimension t with ITS entry of every ARD parameter"""
+    terms = []
+    for t in range(x1.shape[-1]):
+        Pt = {n: (v[..., t:t + 1] if (torch.is_tensor(v) and n in SLICED and v.shape[-1] > 1) else v) for n, v in P.items()}
+        terms.append(k_leaf(fam, Pt, x1[..., t:t + 1], x2[..., t:t + 1]))
+    shape = torch.broadcast_shapes(*[t.shape for t in terms])
+    return [t.expand(shape) for t in terms]
+
+
+def subsets_sum(parts, max_order, weights=None):
+    """sum_{m <= max_order} w_m sum_{i_1 < .. < i_m} prod_j parts[i_j]: the explicit sum over index subsets (no recurrence)"""
+    total = torch.zeros_like(parts[0])
+    for m in range(1, max_order + 1):
+        e = sum(_prod([parts[i] for i in S]) for S in itertools.combinations(range(len(parts)), m))
+        total = total + (e if weights is None else weights[..., m - 1, None, None] * e)
+    return total
